@@ -1424,7 +1424,7 @@ class IndexedAdvancedHTMLParser(AdvancedHTMLParser):
         '''
             _reset - reset this object. Assigned to .reset after __init__ call.
         '''
-        AdvancedHTMLParser.reset(self)
+        AdvancedHTMLParser._reset(self)
 
         self._resetIndexInternal()
 
